@@ -27,7 +27,8 @@ RULE = ('per (entry point, grid shape, position dtype, grid dtype, box, offset, 
         'and -+1e-3 cell neighbours, 0 and Box included; wrap on: -denormal, -1e-3, -1/2, -g(+ulp), -g+1/2, g+ulp, g+1/2, g+1, 2g-ulp, 2g} '
         'as full^3 (small grids) or full on one axis x reduced on the other two, for each axis; one real call per particle; '
         'rolls k in {1,g-1,g} on every axis; all ordered pairs of 64 points x 4 weight pairs; multi-particle sets under every '
-        'accepted thread/partition setting. non-trivial = distinct (configuration, wrapped nearest-cell triple) of a deposit '
+        'accepted thread/partition setting; boxes: cell size 1 / integer cell sizes, 2000, 1 (rotated in quick, all in thorough) plus the '
+        'smallest integer box whose reciprocal cell size rounds (Box + half cell) above the edge g+1/2. non-trivial = distinct (configuration, wrapped nearest-cell triple) of a deposit '
         'with non-zero weight that went through the cell-wise oracle')
 ASSUMPTIONS = [
     'kernel_ref = continuous TSC/CIC window at periodically repeated cell centres, evaluated in long double from the exact input values',
@@ -77,7 +78,8 @@ def maybe_rejected(c):
 def bounds(tier):
     return dict(tsc_shapes=TSC_SHAPES, cic_shapes=CIC_SHAPES, dtypes=['float32', 'float64'], offsets_in_min_cells=[0, 0.25, 0.5],
                 weights=[None, 1, 2.5, 0, 'mix(1,2.5,0,0.5,3)'], nthread=[1, 2, 4], npartition=[None, 1, 2],
-                boxes='cell size 1 (cubes) / integer cell sizes (anisotropic), 2000, 1', tier=tier)
+                boxes='cell size 1 (cubes) / integer cell sizes (anisotropic), 2000, 1, and per (grid, dtype) the smallest integer box for '
+                      'which (Box + half cell) * (g/Box) rounds above g + 1/2', tier=tier)
 
 
 BOUNDS = bounds
@@ -368,10 +370,12 @@ class Ctx:
         return (self.nadds + 1) * float(np.finfo(self.gt).eps) * (np.abs(self.base) + hi)
 
     def klass(self, rf, i):
-        """input class of a failing particle, from its exact coordinates: is it within rounding of the top half-cell edge
-        g + 1/2 of an axis that has only two cells (where cells ix-1, ix, ix+1 reach index 2g)?"""
+        """input class of a failing particle, from its exact coordinates: is it within rounding of the half-cell edge
+        1/2 (mod g) - i.e. g + 1/2 for a particle at the top of the box - on an axis that has only two cells
+        (where the cells ix-1, ix, ix+1 of a coordinate rounded up to g+1 reach index 2g: one right-wrap is not enough)?"""
         for a, g in enumerate(self.shape):
-            if g == 2 and abs(float(rf.u[a][i]) - (g + 0.5)) <= 1e-5:
+            d = float((rf.u[a][i] - np.longdouble(0.5)) % g)
+            if g == 2 and min(d, g - d) <= 1e-5:
                 return ':top-edge-of-2-cell-axis'
         return ''
 
